@@ -12,6 +12,7 @@ loop with a gate at the wake-up points.
 import asyncio
 
 from vlib import eioclient as E
+from vlib.core import jsonable
 from vlib import refcodec as R
 from vlib import sched as SC
 
@@ -536,6 +537,7 @@ def run(ctx):
     ctx.require('disconnected_judged', 5)
     ctx.require('emits_judged', 5)
     ctx.require('connect_time_arrival_scenarios', 10)
+    ctx.require('loss_mid_message_scenarios', 10)
     ctx.extra['scenarios'] = {}
     limit = 1200 if ctx.tier == 'quick' else 40000
     order = [0, 5, 8, 1, 6, 9, 2, 7, 10, 3, 4]
@@ -637,6 +639,92 @@ def connect_arrivals(ctx, k):
                  {'part': 'connect_arrivals', 'results': results})
 
 
+def loss_mid_message(ctx, k):
+    """The connection is lost while an event of several frames is arriving
+    and the reconnection succeeds: receive() returns exactly the events that
+    arrived completely, before and after, in order - never the torn one."""
+    import socketio
+    from vlib import refcodec as RR
+    rng = ctx.case_rng(5 * 10 ** 7 + k)
+    kind = 'sync' if k % 2 == 0 else 'async'
+    ns = rng.choice(['/', '/a'])
+    n_before = rng.randint(0, 2)
+    n_after = rng.randint(1, 3)
+    natt = rng.choice([1, 2, 3])
+    keep = rng.randint(1, natt)
+    blob = ['blob'] + [bytes([65 + i]) * 3 for i in range(natt)]
+    h = E.make_client(kind, client_kw={
+        'reconnection': True, 'reconnection_delay': 1,
+        'randomization_factor': 0})
+    results = []
+    try:
+        if kind == 'async':
+            class SCli(socketio.AsyncSimpleClient):
+                client_class = staticmethod(lambda *a, **kw: h.c)
+
+            async def go():
+                sc = SCli()
+                await sc.connect('http://x', namespace=ns)
+                for i in range(n_before):
+                    h.deliver(RR.EVENT, ns, None, ['ev', 'b%d' % i])
+                h.deliver(RR.EVENT, ns, None, blob, partial=keep)
+                await asyncio.sleep(0.01)
+                await h.a_lose()
+                await asyncio.sleep(30)
+                for i in range(n_after):
+                    h.deliver(RR.EVENT, ns, None, ['ev', 'a%d' % i])
+                for _ in range(n_before + n_after + 2):
+                    try:
+                        results.append(await sc.receive(timeout=1))
+                    except Exception as e:
+                        results.append(type(e).__name__)
+                        break
+            h.run(go(), horizon=60)
+        else:
+            class SCli(socketio.SimpleClient):
+                client_class = staticmethod(lambda *a, **kw: h.c)
+            sc = SCli()
+            sc.connected_event = E.HEvent(h, 'connected_event')
+            sc.input_event = E.HEvent(h, 'input_event')
+            h.call(sc.connect, 'http://x', namespace=ns)
+            for i in range(n_before):
+                h.deliver(RR.EVENT, ns, None, ['ev', 'b%d' % i])
+            h.deliver(RR.EVENT, ns, None, blob, partial=keep)
+            h.pump()
+            h.lose()
+            for i in range(n_after):
+                h.deliver(RR.EVENT, ns, None, ['ev', 'a%d' % i])
+            for _ in range(n_before + n_after + 2):
+                try:
+                    results.append(h.call(sc.receive, timeout=1))
+                except Exception as e:
+                    results.append(type(e).__name__)
+                    break
+    finally:
+        h.close()
+    ctx.count('loss_mid_message_scenarios')
+    got = [r for r in results if isinstance(r, list)]
+    want = [['ev', 'b%d' % i] for i in range(n_before)] + \
+        [['ev', 'a%d' % i] for i in range(n_after)]
+    w = {'part': 'loss_mid_message', 'case_index': k, 'kind': kind,
+         'namespace': ns, 'attachments': natt, 'frames_arrived': keep,
+         'results': jsonable(results), 'attempts': len(h.attempts),
+         'errors': h.all_errors()[:3]}
+    if h.all_errors():
+        ctx.violation(None, 'loss in the middle of an event: error escaped '
+                      '(%s)' % h.all_errors()[0]['exc'], w)
+    elif got != want:
+        ctx.violation(None, 'connection lost in the middle of an event and '
+                      're-established: receive() returned %r, the events '
+                      'that arrived are %r' % (got, want), w)
+    elif results[-1] != 'TimeoutError':
+        ctx.violation(None, 'receive() after the last event ended with %r'
+                      % (results[-1],), w)
+    else:
+        ctx.case(('loss_mid_message', kind, ns, n_before, n_after, natt,
+                  keep), None)
+
+
 def random_batch(ctx, k, n):
     for _ in range(n):
         if ctx.out_of_time() or ctx.too_many_violations():
@@ -655,6 +743,8 @@ def random_batch(ctx, k, n):
         ctx.count('random_scenarios')
         if k % 5 == 0:
             connect_arrivals(ctx, k)
+        if k % 7 == 0:
+            loss_mid_message(ctx, k)
         k += 1
     return k
 
@@ -663,6 +753,8 @@ def replay(ctx, w):
     wi = w['witness']
     if wi.get('part') == 'connect_arrivals':
         return connect_arrivals(ctx, wi['case_index'])
+    if wi.get('part') == 'loss_mid_message':
+        return loss_mid_message(ctx, wi['case_index'])
     spec, choices = wi['scenario'], wi.get('choices') or []
     if wi.get('kind') == 'async':
         sc = AsyncScenario(ctx, spec, choices, None)
